@@ -205,3 +205,23 @@ func zzC11Run(spec string) {
 
 func zzC11_Run_T2()   { zzC11Run("2;Tasks=2;After=1") }
 func zzC11_Run_T2A2() { zzC11Run("2;Tasks=2;After=2") }
+
+// C10 for plan: whatever makes RunPlan return an error (parse error, invalid document, busy lock, a
+// late internal check), nothing has been handed to the log. Two tasks with up to two after entries
+// each, so repeated and redundant after entries are included.
+func zzC10_PlanFails_A2() {
+	g := zzC14Store("1;Results=0;RDeps=0;Tombstones=0;constkeys=Tasks,Meta,Deps")
+	root := zzWorldInit(g)
+	opts := zzCmdOpts(root)
+	p := zzPlanDoc("2;Tasks=2;After=2")
+	zzStdinPiped(true)
+	zzStdinPlan(p, zzBool("stdin.parseError"))
+	err := RunPlan(nil, opts)
+	written := zzWritten()
+	if err != nil {
+		zzReach("plan-failed")
+		zzAssert(len(written) == 0, "C10/plan: a failing plan writes nothing")
+		return
+	}
+	zzReach("plan-applied")
+}
